@@ -59,7 +59,7 @@ def classify(formula, lines, i):
         if completed_before_flush(lines, i):
             extra = "/completed-while-flush-pending"
             kind = "*"
-    if formula == "C02_QuiescentOk":
+    if formula in ("C02_QuiescentOk", "C01_OutcomeAtRest"):
         r = stuck_reason(lines, i)
         if r:
             extra = "/" + r
